@@ -15,7 +15,7 @@ from vf import storage_engine  # noqa: F401  (registers the driver)
 PROP = "C14"
 LEVEL = "exploration"
 RULE = ("base cases: 1-4 forked writer processes with an assignment of ids (contiguous, with gaps, reversed, "
-        "interleaved, pre-sized index, the same id given to two writers, a writer storing an own id twice), 0-3 forked "
+        "interleaved, pre-sized index, the same id given to two writers, a writer storing an own id twice; writers that close and re-open the storage between stores and writers that stay open idle after their last store), 0-3 forked "
         "reader processes and the parent polling random ids (stored and never stored) WHILE the writers run; unique "
         "single-line texts with blanks, tabs, quotes, NUL, multi-byte UTF-8. Each base case: dry run, one run per "
         "(executed statement, occurrence) with a 120 ms delay in parent, writer and reader roles, random 2-3 delay "
@@ -71,7 +71,7 @@ def gen_base(rng, tier, index):
     return {"kind": "storage", "pool": "storage", "workers": nw, "writers": writers, "readers": rng.choice([0, 1, 2, 3]),
             "presize": presize, "extra_ids": [max(ids) + 1 if ids else 1, max(ids) + 40 if ids else 40],
             "parent_polls": rng.random() < 0.8, "parent_writes_late": index % 3 == 0, "seed": rng.randrange(1 << 20),
-            "max_reads": 250, "calls": [],
+            "max_reads": 250, "calls": [], "writer_reopens": index % 4 == 2, "linger": rng.choice([0, 0, 0.05, 0.15]),
             "parent_reads_before_fork": tier == "thorough" and index % 7 == 6}
 
 
